@@ -257,3 +257,160 @@ VERIF_OBLIGATION(obl_c02_process)
         verif_assert(mc.i_counters[e] == pre.counter[e] + (unsigned)created[e], "event track counter advanced by the number of tracks created");
     verif_assert((int)c.num_vacancies == vac_cnt && (int)c.num_alive == N - vac_cnt, "num_vacancies / num_alive equal the true counts");
 }
+
+//---------------------------------------------------------------------------//
+// C02.2 (inductive form): ONE ProcessSecondariesExecutor call for slot `tid` from an arbitrary state that satisfies
+// the post-condition of locate + scan (C02.1): offset = num_secondaries - secondary_counts[tid] >= own initializer need
+VERIF_OBLIGATION(obl_c02_process_slot)
+{
+    MC mc;
+    arbitrary_state(mc, false);
+    size_type ninit0 = arbitrary_queue(mc);
+    constexpr int tid = 0;
+    Pre pre;
+    snapshot(mc, pre);
+    TrackInitializer q0[K];
+    TrackSlotId par0[N];
+    for (int q = 0; q < K; ++q)
+        q0[q] = mc.i_initializers[q];
+    for (int i = 0; i < N; ++i)
+    {
+        unsigned p = verif_nondet_u32("parents");
+        verif_assume(p <= (unsigned)N);
+        mc.i_parents[i] = p < (unsigned)N ? TrackSlotId(p) : TrackSlotId{};
+        par0[i] = mc.i_parents[i];
+    }
+    // own need: valid secondaries minus the in-place one
+    bool inactive = pre.status[tid] == TrackStatus::inactive;
+    bool alive = pre.status[tid] == TrackStatus::alive;
+    int nvalid = inactive ? 0 : valid_secs(mc, tid);
+    bool reuse = !alive && nvalid > 0;
+    int need = nvalid - (reuse ? 1 : 0);
+    // counters as produced by the scan: total, this slot's exclusive prefix, total initializers (already += total)
+    size_type total = verif_nondet_u32("num_secondaries");
+    size_type prefix = verif_nondet_u32("prefix");
+    verif_assume(total <= (size_type)(N * S) && prefix <= total && prefix + need <= total);
+    verif_assume(ninit0 + total <= (size_type)K);
+    mc.i_counts[tid] = prefix;
+    CoreStateCounters& c = mc.counters;
+    c.num_secondaries = total;
+    c.num_initializers = ninit0 + total;
+    ProcessSecondariesExecutor process{verif::params_ptr(mc), verif::state_ptr(mc), c};
+    process(ThreadId(tid));
+    verif_reach("process_slot");
+
+    int j = 0;  // rank among this slot's initializer-bound secondaries
+    bool used_slot = false;
+    unsigned ev = pre.event[tid].unchecked_get();
+    int created = 0;
+    for (int k = 0; k < S; ++k)
+    {
+        if (inactive || k >= (int)pre.nsec[tid] || !pre.sec[tid][k])
+            continue;
+        Secondary const& s = pre.sec[tid][k];
+        TrackId got;
+        if (!alive && !used_slot)
+        {
+            used_slot = true;
+            verif_assert(mc.s_status[tid] == TrackStatus::initializing && mc.s_steps[tid] == 0, "in-place secondary: slot re-initialised");
+            verif_assert(mc.s_parent[tid] == pre.track[tid] && mc.s_event[tid] == pre.event[tid], "in-place secondary: parent id / event");
+            verif_assert(mc.p_id[tid] == s.particle_id && mc.p_energy[tid] == s.energy.value(), "in-place secondary: particle / energy of the secondary");
+            got = mc.s_track[tid];
+        }
+        else
+        {
+            int idx = (int)ninit0 + (int)prefix + j;  // = num_initializers - offset + j
+            TrackInitializer const& ti = mc.i_initializers[idx];
+            verif_assert(ti.particle.particle_id == s.particle_id && ti.particle.energy == s.energy, "initializer at its scan position carries the secondary");
+            verif_assert(ti.sim.parent_id == pre.track[tid] && ti.sim.event_id == pre.event[tid], "initializer parent id / event");
+            verif_assert(ti.geo.pos[0] == pre.pos[tid][0] && ti.geo.pos[1] == pre.pos[tid][1] && ti.geo.pos[2] == pre.pos[tid][2], "initializer position = parent position");
+            verif_assert(ti.geo.dir[0] == s.direction[0] && ti.geo.dir[1] == s.direction[1] && ti.geo.dir[2] == s.direction[2], "initializer direction = secondary direction");
+            int off = (int)total - (int)prefix - j;
+            if (off <= N)
+                verif_assert(mc.i_parents[N - off] == TrackSlotId(tid), "parents[] entry for InitTracks");
+            got = ti.sim.track_id;
+            ++j;
+        }
+        verif_assert(got.unchecked_get() == pre.counter[ev] + (unsigned)created, "track ids are consecutive values of the event counter");
+        ++created;
+    }
+    verif_assert(j == need, "as many initializers as secondaries not born in place");
+    for (int e = 0; e < E; ++e)
+        verif_assert(mc.i_counters[e] == pre.counter[e] + ((unsigned)e == ev ? (unsigned)created : 0u), "event counters: +created for this event only");
+    // frame: every initializer outside [ninit0+prefix, ninit0+prefix+need) is untouched; other slots untouched
+    for (int q = 0; q < K; ++q)
+        if (q < (int)(ninit0 + prefix) || q >= (int)(ninit0 + prefix) + need)
+            verif_assert(mc.i_initializers[q].sim.track_id == q0[q].sim.track_id && mc.i_initializers[q].sim.parent_id == q0[q].sim.parent_id
+                             && mc.i_initializers[q].particle.energy == q0[q].particle.energy && mc.i_initializers[q].particle.particle_id == q0[q].particle.particle_id,
+                         "no initializer outside this slot's scan range is written");
+    for (int i = 1; i < N; ++i)
+        verif_assert(mc.s_status[i] == pre.status[i] && mc.s_track[i] == pre.track[i] && mc.p_id[i] == pre.pid[i] && mc.p_energy[i] == pre.energy[i]
+                         && mc.g_pos[i][0] == pre.pos[i][0],
+                     "other slots untouched");
+    if (alive)
+        verif_assert(mc.s_status[tid] == TrackStatus::alive && mc.s_track[tid] == pre.track[tid] && mc.p_energy[tid] == pre.energy[tid], "alive parent untouched");
+    if (!alive && !reuse)
+        verif_assert(mc.s_status[tid] == TrackStatus::inactive, "finished track without secondaries becomes inactive");
+}
+
+//---------------------------------------------------------------------------//
+// C02.3 (inductive form): ONE InitTracksExecutor thread, TrackOrder::none
+VERIF_OBLIGATION(obl_c02_init_thread)
+{
+    MC mc;
+    arbitrary_state(mc, false);
+    size_type ninit = arbitrary_queue(mc);
+    Pre pre;
+    snapshot(mc, pre);
+    // vacancies: distinct slot ids (post-condition of C02.1), nv of them
+    size_type nv = verif_nondet_u32("num_vacancies");
+    verif_assume(nv <= (size_type)N);
+    for (int i = 0; i < N; ++i)
+    {
+        unsigned v = verif_nondet_u32("vacancy");
+        verif_assume(v < (unsigned)N);
+        mc.i_vacancies[i] = TrackSlotId(v);
+        for (int k = 0; k < i; ++k)
+            verif_assume(mc.i_vacancies[k] != mc.i_vacancies[i]);
+        unsigned p = verif_nondet_u32("parents");
+        verif_assume(p < (unsigned)N);
+        mc.i_parents[i] = TrackSlotId(p);
+    }
+    for (int i = 0; i < MC::V; ++i)
+    {
+        unsigned m = verif_nondet_u32("geo_material");
+        verif_assume(m <= (unsigned)MC::M);
+        mc.geo_mat[i] = m < (unsigned)MC::M ? MaterialId{m} : MaterialId{};
+    }
+    size_type num_new = nv < ninit ? nv : ninit;
+    unsigned t = verif_nondet_u32("thread");
+    verif_assume(t < num_new);
+    CoreStateCounters& c = mc.counters;
+    c.num_initializers = ninit;
+    c.num_vacancies = nv;
+    c.num_secondaries = verif_nondet_u32("num_secondaries");
+    verif_assume(c.num_secondaries <= ninit);
+    // the slot taken must be vacant (post-condition of C02.1/C02.2: vacancies list only inactive slots)
+    unsigned vslot = mc.i_vacancies[nv - 1 - t].unchecked_get();
+    verif_assume(mc.s_status[vslot] == TrackStatus::inactive);
+    TrackInitializer const init = mc.i_initializers[ninit - 1 - t];
+    // a parent recorded for this thread holds the geometry the initializer was created from (C02.2)
+    if (t < c.num_secondaries)
+    {
+        unsigned ps = mc.i_parents[N - 1 - t].unchecked_get();
+        verif_assume(mc.g_pos[ps][0] == init.geo.pos[0] && mc.g_pos[ps][1] == init.geo.pos[1] && mc.g_pos[ps][2] == init.geo.pos[2]);
+        verif_assume(mc.g_vol[ps] != LocalVolumeId{0});
+    }
+    InitTracksExecutor run{verif::params_ptr(mc), verif::state_ptr(mc), num_new, c};
+    run(ThreadId(t));
+    verif_reach("init_thread");
+    verif_assert(mc.s_track[vslot] == init.sim.track_id && mc.s_parent[vslot] == init.sim.parent_id && mc.s_event[vslot] == init.sim.event_id,
+                 "vacancy nv-1-t receives initializer ninit-1-t (ids)");
+    verif_assert(mc.p_id[vslot] == init.particle.particle_id && mc.p_energy[vslot] == init.particle.energy.value(), "... particle and energy");
+    verif_assert(mc.s_status[vslot] == TrackStatus::initializing || mc.s_status[vslot] == TrackStatus::errored, "new track is initializing (or errored if geometry/material lookup failed)");
+    verif_assert(mc.s_steps[vslot] == 0, "step counter starts at 0");
+    for (int i = 0; i < N; ++i)
+        if ((unsigned)i != vslot)
+            verif_assert(mc.s_status[i] == pre.status[i] && mc.s_track[i] == pre.track[i] && mc.p_id[i] == pre.pid[i] && mc.p_energy[i] == pre.energy[i],
+                         "no other slot is written (no live track overwritten)");
+}
